@@ -82,7 +82,7 @@ func (k *wcase) run(sink *mon.Sink) wresult {
 		}
 		pos := 0
 		for i, l := range k.Parts {
-			n, err := wr.Write(k.Data[pos : pos+l])
+			n, err := callerWrite(wr, k.Data[pos:pos+l], uint64(pos+l))
 			note(fmt.Sprintf("Write(%d)->%d", l, n), err)
 			pos += l
 			if k.Flush[i] && flusher != nil {
